@@ -38,19 +38,41 @@ func getStoreRoles(p *ir.Prog) *storeRoles {
 	s.apply = p.Fn("chain", "DBStore", "ApplyBlock")
 	s.revert = p.Fn("chain", "DBStore", "RevertBlock")
 	s.methods = p.MethodsOf("chain", "DBStore")
-	for _, n := range []string{"put", "putRaw", "delete"} {
-		s.bucketWrites = append(s.bucketWrites, p.Method("chain", "dbBucket", n))
+	bt := dbBucketType(p)
+	rawPut0 := p.Method("chain", "DBBucket", "Put")
+	rawDel0 := p.Method("chain", "DBBucket", "Delete")
+	// the wrapper's write methods: those that (transitively) reach DBBucket.Put / Delete
+	wr := map[*types.Func]bool{}
+	for round := 0; round < 3; round++ {
+		for _, f := range p.MethodsOf("chain", bt) {
+			if len(f.CallsTo(false, rawPut0, rawDel0)) > 0 {
+				wr[f.Obj] = true
+			}
+			for _, call := range f.Calls(false) {
+				if wr[call.Fn] {
+					wr[f.Obj] = true
+				}
+			}
+		}
+	}
+	for _, f := range p.MethodsOf("chain", bt) {
+		if wr[f.Obj] {
+			s.bucketWrites = append(s.bucketWrites, f.Obj)
+		}
+	}
+	if len(s.bucketWrites) == 0 {
+		ir.Fail("no write method on the bucket wrapper %s", bt)
 	}
 	// direct raw writes through DBBucket as well
 	rawPut := p.Method("chain", "DBBucket", "Put")
 	rawDel := p.Method("chain", "DBBucket", "Delete")
-	for _, f := range p.MethodsOf("chain", "dbBucket") {
+	for _, f := range p.MethodsOf("chain", bt) {
 		if len(f.CallsTo(false, rawPut, rawDel)) > 0 {
 			s.writers[f.Obj] = true
 		}
 	}
 	for round := 0; round < 5; round++ {
-		for _, f := range append(append([]*ir.Func{}, s.methods...), p.MethodsOf("chain", "dbBucket")...) {
+		for _, f := range append(append([]*ir.Func{}, s.methods...), p.MethodsOf("chain", bt)...) {
 			for _, call := range f.Calls(true) {
 				if s.writers[call.Fn] {
 					s.writers[f.Obj] = true
@@ -355,9 +377,11 @@ func checkRevertRemovesEntry(c *Ctx, s *storeRoles, putHeight *ir.Func, bestWrit
 		deletes := false
 		for _, call := range revertState.Calls(false) {
 			if callee := c.P.FuncOf(call.Fn); callee != nil && bestWriters[call.Fn] {
-				del := c.P.Method("chain", "dbBucket", "delete")
-				if len(callee.CallsTo(false, del)) > 0 {
-					deletes = true
+				rawDel := c.P.Method("chain", "DBBucket", "Delete")
+				for _, c3 := range callee.Calls(false) {
+					if w := c.P.FuncOf(c3.Fn); w != nil && len(w.CallsTo(false, rawDel)) > 0 {
+						deletes = true
+					}
 				}
 			}
 		}
